@@ -411,7 +411,23 @@ def _model_utf_8_decode(data, errors='strict', final=False):
     raise UnicodeDecodeError('utf-8', b'\xff', 0, 1, 'invalid start byte (symbolic)')
 
 
-NATIVE_MODELS = {_codecs.utf_8_decode: _model_utf_8_decode}
+def _model_round(x, ndigits=None):
+    """round() of a symbolic real, idealised over the reals: round-half-even to `ndigits` decimals"""
+    if not isinstance(x, SymReal) or isinstance(ndigits, (SymInt, SymReal)):
+        raise EngineLimit('round() of %s' % type(x).__name__)
+    if ndigits is None:
+        raise EngineLimit('round() of a symbolic real to an integer')
+    k = z3.RealVal(10) ** ndigits if ndigits >= 0 else 1 / (z3.RealVal(10) ** (-ndigits))
+    k = z3.simplify(k)
+    y = x.e * k
+    fi = z3.ToInt(y)
+    f = z3.ToReal(fi)
+    frac = y - f
+    r = z3.If(frac > z3.RealVal('1/2'), f + 1, z3.If(frac < z3.RealVal('1/2'), f, z3.If(fi % 2 == 0, f, f + 1)))
+    return SymReal(r / k)
+
+
+NATIVE_MODELS = {_codecs.utf_8_decode: _model_utf_8_decode, builtins.round: _model_round}
 
 
 class FakeMatch(object):
@@ -848,3 +864,82 @@ def source_digest():
             with open(os.path.join(ROOT, fn), 'rb') as fh:
                 h.update(fn.encode() + b'\0' + fh.read())
     return h.hexdigest()[:16]
+
+
+# =============================================================================================
+# module- / class-level state of the package under test must not leak from one explored path into the next
+# =============================================================================================
+
+def _fp(x, depth, seen):
+    if isinstance(x, (_int, float, _str, _bytes, bool, type(None))):
+        return x if not isinstance(x, (_str, _bytes)) or len(x) < 64 else (type(x).__name__, len(x), hash(x))
+    if id(x) in seen or depth <= 0:
+        return type(x).__name__
+    if isinstance(x, (_bytearray,)):
+        return ('bytearray', _bytes(x))
+    if isinstance(x, (SymSeq, SymStr)):
+        it = x._get()
+        return (type(x).__name__, len(it), tuple(i if isinstance(i, _int) else 'sym' for i in it[:64]))
+    if isinstance(x, (list, tuple)):
+        if len(x) > 64:
+            return (type(x).__name__, len(x))
+        seen = seen | {id(x)}
+        return (type(x).__name__,) + tuple(_fp(i, depth - 1, seen) for i in x)
+    if isinstance(x, (set, frozenset)):
+        return (type(x).__name__, len(x))
+    if isinstance(x, dict):
+        if len(x) > 64:
+            return ('dict', len(x))
+        seen = seen | {id(x)}
+        return ('dict',) + tuple((repr(k), _fp(v, depth - 1, seen)) for k, v in x.items())
+    cls = type(x)
+    if getattr(cls, '__module__', '').startswith('lomond') and not isinstance(x, type):
+        seen = seen | {id(x)}
+        d = getattr(x, '__dict__', None)
+        items = list(d.items()) if d is not None else [(n, getattr(x, n, None)) for n in getattr(cls, '__slots__', ())]
+        return (cls.__name__,) + tuple((k, _fp(v, depth - 1, seen)) for k, v in items)
+    return cls.__name__
+
+
+def state_fingerprint():
+    """structural digest of the mutable module-level and class-level state of every imported lomond module"""
+    out = []
+    for name in sorted(m for m in sys.modules if m == 'lomond' or m.startswith('lomond.')):
+        mod = sys.modules[name]
+        for k, v in sorted(vars(mod).items()):
+            if k.startswith('__') or isinstance(v, (types.ModuleType, types.FunctionType, types.BuiltinFunctionType)):
+                continue
+            if isinstance(v, type):
+                if getattr(v, '__module__', None) == name:
+                    for ck, cv in sorted(vars(v).items()):
+                        if ck.startswith('__') or callable(cv) or isinstance(cv, (property, classmethod, staticmethod, types.MemberDescriptorType)):
+                            continue
+                        out.append((name, k, ck, _fp(cv, 4, frozenset())))
+                continue
+            out.append((name, k, _fp(v, 4, frozenset())))
+    return hash(repr(out))
+
+
+STATE = {'baseline': None, 'reloads': 0}
+
+
+def import_all():
+    import importlib
+    for fn in sorted(os.listdir(ROOT)):
+        if fn.endswith('.py') and fn != '__init__.py' and fn != '__main__.py':
+            importlib.import_module('lomond.' + fn[:-3])
+
+
+def ensure_clean_state():
+    """called at the start of every explored path: if a previous path left module/class-level state behind, the package
+    is imported afresh (module bodies executed again from the cached instrumented code).  The baseline is taken right
+    after a complete import of every module of the package, i.e. on a state no path has touched."""
+    if STATE['baseline'] is None:
+        import_all()
+        STATE['baseline'] = state_fingerprint()
+        return
+    if state_fingerprint() != STATE['baseline']:
+        STATE['reloads'] += 1
+        reload_fresh()
+        import_all()
+        STATE['baseline'] = state_fingerprint()
